@@ -9,9 +9,6 @@ Definition wf (s : schema) : Prop :=
   /\ (forall f g, In f s -> In g s -> f_name f = f_name g -> f = g)
   /\ (forall f g, In f s -> In g s -> has_col f = true -> f_name g = f_db f -> g = f).
 
-(* own-table qualifiers only ("tbl.col" / "tbl.*" with tbl = the statement's table) *)
-Definition local (table : string) (items : list sitem) : bool :=
-  forallb (fun it => match it with STab t _ | STabStar t => String.eqb t table | _ => true end) items.
 
 Lemma eqb_sym' a b : String.eqb a b = String.eqb b a.
 Proof. apply String.eqb_sym. Qed.
